@@ -2,10 +2,46 @@
 """Regenerates /verif/MANIFEST.json from the table below (single source of truth)."""
 import json, subprocess
 
-HOOK_COMMITS = ["5ccaaac"]
+HOOK_COMMITS = ["5ccaaac", "7f20f04"]
 
 # id -> dict(level, text, note, technique, design)
 BUILT = {
+ "C02": dict(
+  level="model_checking",
+  text="The TLA+ reference decoder FitRef (value semantics FitValues: byte order, sign/zero extension, strings, arrays, times, coordinates, invalid values; three-valued verdicts) is run by TLC over the input of every recorded Decode call (trace validation, one state per protocol unit) and every produced message is compared field by field with what the real decoder returned. Drivers: all device files under testdata, a systematic stream per hosted message covering every field x every compatible definition type (narrower types too) x both byte orders x boundary values with unknown/developer neighbours, large definitions (up to 255 fields / 255 developer fields), and seeded profile-driven random streams.",
+  note="Trusted: TLC; the profile tables are read from the compiled program through the verif export hook (C15 checks them). Only messages held by a file container are observable. Unpinned cases (DESIGN.md 2.4) are not compared. No exhaustive Impl model of parseFitField is claimed here: binding is by trace validation.",
+  technique="TLA+ reference decoder (FitRef/FitValues) + TLC trace validation of recorded Decode calls (corpus, systematic per-field streams, random streams)",
+  design="DESIGN.md section 5, C02"),
+ "C03": dict(
+  level="model_checking",
+  text="FitRef!Deliver states the routing contract over a schema that is derived by reflection from the container struct types (not from the add switches). TLC validates recorded Decode calls: all 256 file-type values (accepted iff one of the 17, NewFile agreeing), and for each of the 17 file types streams carrying every known message type 2-3 times plus unknown messages and later file_id records (other type, same type, invalid type, no type field) in seeded interleavings; slot membership, order, counts, last-wins for single slots, the reported file type and the set of succeeding accessors are compared.",
+  note="Trusted: TLC, reflection-derived schema. Interleavings are sampled (seeded), the (file type, message type) matrix is complete in every run.",
+  technique="TLA+ routing contract (FitRef!Deliver, FitProfile!RouteTab) + TLC trace validation over the complete file-type x message-type matrix",
+  design="DESIGN.md section 5, C03"),
+ "C12": dict(
+  level="model_checking",
+  text="The Contract's timestamp rules (FitRef!DataAt/FieldStep: epoch + seconds, least t >= reference congruent to the 5-bit offset mod 32, re-basing by field 253, local time = reference instant in a zone of offset local-minus-reference, offset 0 without reference) are evaluated by TLC over recorded Decode calls of timestamp-centred streams: boundary references (around 0x10000000 and 2^32), all 32 offsets, rollovers, long compressed runs, compressed records of messages without timestamp field and of unknown messages, local timestamps with equal/zero/varying offsets, both byte orders; plus device files.",
+  note="Left unconstrained as DESIGN.md C12 states (compressed record before any reference; references below 0x10000000 for local times; state after an unreferenced local time or an unknown message's timestamp). The Impl's masked int32 arithmetic is not separately model-checked yet.",
+  technique="TLA+ timestamp contract in FitRef + TLC trace validation of timestamp-centred streams",
+  design="DESIGN.md section 5, C12"),
+ "C13": dict(
+  level="model_checking",
+  text="FitRef keeps one definition per local type (defs[l] replaced by a definition record, looked up by data records; compressed headers address 0..3). TLC validates recorded Decode calls of streams over all 16 local types with redefinitions switching message, field list, sizes and byte order between data records of other slots, long-lived slots across >4096 cumulative field definitions, and data records of never-defined local types (must be rejected). Each stream is paired with a control stream in which every data record directly follows its own definition; a disagreement counts against C13 only if the control decodes correctly.",
+  note="Trusted: TLC. Streams are seeded random; the 16 slots are all used in every run.",
+  technique="TLA+ slot contract in FitRef + TLC trace validation with control streams",
+  design="DESIGN.md section 5, C13"),
+ "C16": dict(
+  level="model_checking",
+  text="FitRef counts unknown messages (per data record of a message number absent from the profile) and unknown fields (per record of a known message, per unlisted field number); TLC compares the sorted lists with what the real decoder reports, exactly on success and within the record in flight on failure. Every input (generated with many unknown items, cut or bit-flipped part-way, device files, compressed-timestamp streams) is decoded under all 8 option combinations; each call is validated against the same Contract and the 8 results are compared with each other (messages, error, bytes consumed).",
+  note="Trusted: TLC. Logger output itself is discarded (a Logger that does nothing).",
+  technique="TLA+ counters in FitRef + TLC trace validation under all 8 option sets + cross-option comparison",
+  design="DESIGN.md section 5, C16"),
+ "C18": dict(
+  level="model_checking",
+  text="FitRef!ApplyEnhance/ExpandRecord/ExpandEvent state the component rules (bit slices, invalid source leaves destinations alone, accumulation of rollover-corrected deltas restarting with every file). TLC validates recorded calls of component-bearing streams in each container that holds such messages (activity, course, activity summary, segment), decoded twice per process and as chains. The four known deviations of the generated code are modelled as named operators (the exact value the current code produces) and reported as KNOWN-FINDING; any other difference is a violation.",
+  note="Trusted: TLC; component table transcribed from the property statement with the profile's field numbers. Known findings listed in /verif/known_findings.json.",
+  technique="TLA+ component contract in FitRef + TLC trace validation with named deviations for the recorded findings",
+  design="DESIGN.md section 5, C18"),
  "C14": dict(
   level="model_checking",
   text="TLC checks NibStep (transcription of dyncrc16.updateByte) = BitStep (bit-serial CRC-16/ARC definition) = TabStep on all 65536x256 pairs (thorough; 65536x16 quick), linearity, the residue lemma and the streaming machine's partition invariant on a small alphabet; the real package is then bound to the spec twice: all 16.7M (state, byte) transitions of the real code are compared with the byte table TLC derived from the definition, and operation logs of the real Hash16 (writes in random partitions, Reset, Sum, Sum16, Checksum, residue) are validated event by event against CrcStream by TLC.",
